@@ -264,7 +264,8 @@ func TestC44(t *testing.T) {
 		{config{provideMany: true, setMax: true, maxBatch: 5, hasCb: true, minProvides: 2}, []key{k(1, 1), k(1, 2), k(1, 3), k(1, 4), k(1, 5)}},
 	}
 	n := e.Pick(400, 6000)
-	for i := 0; i < n; i++ {
+	hung := 0
+	for i := 0; i < n && hung < 3; i++ {
 		var rc rcase
 		if i < len(corpus) {
 			rc = corpus[i]
@@ -276,6 +277,11 @@ func TestC44(t *testing.T) {
 			rc = rcase{genConfig(e), genStream(e, maxLen)}
 		}
 		term, batches := runReprovide(t, rc.c, rc.s)
+		if !term && rc.c.effective() != 0 {
+			// a pass that should finish hit the 20 s watchdog: a few such cases establish the violation,
+			// more of them would only burn the time budget
+			hung++
+		}
 		cs.Add(vh.App("CReprovide", rc.c.coq(), badCoq, keysCoq(rc.s), vh.Bool(term), batchesCoq(batches)),
 			map[string]any{"kind": "reprovide", "config": rc.c.coq(), "bad_multihash_ids": badIDs, "stream": keysCoq(rc.s),
 				"terminated": term, "batches": batches})
